@@ -782,10 +782,18 @@ func (r *Raft) submitReadOnlyOperation(
 		return operationFuture
 	}
 
+	// Until an entry from the current term has been committed, the commit index may not yet
+	// cover everything that was committed by previous leaders. All of that is in the log of
+	// this leader though, so the last index of the log is a safe read index in that case.
+	readIndex := r.commitIndex
+	if !r.committedThisTerm() {
+		readIndex = r.log.LastIndex()
+	}
+
 	operation := &Operation{
 		Bytes:         operationBytes,
 		OperationType: readOnlyType,
-		readIndex:     r.commitIndex,
+		readIndex:     readIndex,
 	}
 	r.operationManager.pendingReadOnly[operation] = operationFuture.responseCh
 
